@@ -1091,6 +1091,9 @@ impl Vm {
                 .expect("Expected ExcHandler.");
             (handler.finally_ip, handler.init_stack_size)
         };
+        if self.stack_size() > init_stack_size {
+            self.active_fiber_mut().close_upvalues(init_stack_size);
+        }
         self.active_fiber_mut().stack.truncate(init_stack_size);
         self.ip = new_ip;
     }
@@ -1549,6 +1552,11 @@ impl Vm {
         // in the frame that threw it.
         if !handler.has_catch_block() || self.active_fiber().frames.len() > handler.frame_count {
             self.active_fiber_mut().error_ip = None;
+        }
+        // Variables captured by closures must survive the scopes that unwinding discards.
+        if self.stack_size() > handler.init_stack_size {
+            self.active_fiber_mut()
+                .close_upvalues(handler.init_stack_size);
         }
         self.active_fiber_mut()
             .stack
